@@ -92,6 +92,10 @@ def cases(tier, seed):
     # start and shutdown called by different threads, each with trace functions of its own (sys.settrace is per thread)
     for st, tt, ot, nt in itertools.product((0, 1), (0, 1), (0, 1), (0, 1)):
         out.append({'k': 'threads', 'sys': st, 'thr': tt, 'other': ot, 'no_trace': nt})
+    # a second start() / a shutdown() arriving while the first start() is still in progress (parked in a plugin's resource())
+    for second in ('start', 'shutdown'):
+        for st in (0, 1):
+            out.append({'k': 'overlap', 'second': second, 'thr': st})
     return out
 
 
@@ -177,11 +181,100 @@ def threads_case(ctx, desc):
                       f'(without the agent it would have the threading hook {name(pre[1])})', desc)
 
 
+def overlap_case(ctx, desc):
+    """Thread A is inside start() (parked where the plugin's resource is asked for) when thread B calls start() or shutdown(). Whatever the
+    order they are served in: afterwards one poll timer exists while started, and after a final shutdown nothing polls and the
+    threading hook is the old one."""
+    from deepproto.proto.tracepoint.v1.tracepoint_pb2 import SnapshotResponse
+    j = plugs.reset()
+    parked, release = threading.Event(), threading.Event()
+    real_seam = rig.Journal.seam
+    state = {'first': True}
+
+    def seam(self, who, what):
+        self.seam_calls += 1
+        if what == 'resource' and state['first']:
+            state['first'] = False
+            parked.set()
+            release.wait(20)
+    chan = rig.FakeChannel(send_handler=lambda r, m: SnapshotResponse())
+    pre = fb if desc['thr'] else None
+    saved = (sys.gettrace(), threading.gettrace())
+    ctx.case()
+    ctx.nt(('overlap', desc['second'], desc['thr']))
+    errs = []
+    timers = []
+    import deep.utils as DU
+    real_timer_start = DU.RepeatedTimer.start
+
+    def counting_start(self):
+        timers.append(self)
+        return real_timer_start(self)
+    rig.Journal.seam = seam
+    DU.RepeatedTimer.start = counting_start
+    try:
+        threading.settrace(pre)
+        with rig.DeepWorld(custom={'PLUGINS': ['mc.plugs.AllInOne']}, channel=chan) as w:
+            w._trace = saved
+            d = w.deep
+
+            def call(op):
+                sys.settrace(None)
+                try:
+                    getattr(d, op)()
+                except BaseException as e:
+                    errs.append((op, e))
+                finally:
+                    sys.settrace(None)
+            a = threading.Thread(target=call, args=('start',), name='host-a')
+            a.start()
+            parked.wait(20)
+            b = threading.Thread(target=call, args=(desc['second'],), name='host-b')
+            b.start()
+            b.join(0.4)            # either B is done, or it waits for A's start to finish
+            release.set()
+            a.join(20)
+            b.join(20)
+            label = f'start() in progress on one thread, {desc["second"]}() called on another (threading hook before: {getattr(pre, "__name__", pre)})'
+            alive = [t for t in timers if t.thread is not None and t.thread.is_alive()]
+            if errs:
+                ctx.violation('C14/overlap/raised', f'{label}: {errs[:1]}', desc)
+                return
+            if d.started and len(alive) != 1:
+                ctx.violation('C14/overlap/poll-timers', f'{label}: started={d.started} with {len(alive)} poll timer threads running ({len(timers)} created)', desc)
+                return
+            if not d.started and alive:
+                ctx.violation('C14/overlap/polling-while-stopped', f'{label}: started=False but {len(alive)} poll timer threads run', desc)
+                return
+            d.shutdown()
+            time.sleep(0.05)
+            alive = [t for t in timers if t.thread is not None and t.thread.is_alive()]
+            hook = threading.gettrace()
+            ctx.outcome(('overlap', desc['second'], len(timers)))
+            if alive:
+                ctx.violation('C14/overlap/polling-after-shutdown', f'{label}: after the final shutdown {len(alive)} of {len(timers)} poll timer threads still run', desc)
+            elif hook is not pre:
+                ctx.violation('C14/overlap/threading-hook-not-restored', f'{label}: after the final shutdown the threading trace function is {getattr(hook, "__name__", hook)}', desc)
+    finally:
+        release.set()
+        rig.Journal.seam = real_seam
+        DU.RepeatedTimer.start = real_timer_start
+        for t in timers:
+            try:
+                t.stop()
+            except BaseException:
+                pass
+        sys.settrace(saved[0])
+        threading.settrace(saved[1])
+
+
 def run_case(ctx, desc):
     if desc['k'] == 'race':
         return race(ctx, desc)
     if desc['k'] == 'threads':
         return threads_case(ctx, desc)
+    if desc['k'] == 'overlap':
+        return overlap_case(ctx, desc)
     faults = [desc['fault']] if 'fault' in desc else FAULTS
     for f in faults:
         if f.endswith('_1') and desc['plugins'] < 2:
@@ -454,7 +547,8 @@ def race(ctx, desc):
 
     with shims.patched((deep.task, 'ThreadPoolExecutor', shims.SchedPool), (deep.task, 'threading', shims.ThreadingShim()),
                        (deep.utils, 'Event', shims.SchedEvent), (deep.utils, 'Thread', shims.SchedThread),
-                       (ATT, 'threading', shims.ThreadingShim()), (__import__('deep.config.tracepoint_config', fromlist=['x']), 'threading', shims.ThreadingShim())), rig.VirtualClock():
+                       (ATT, 'threading', shims.ThreadingShim()), (__import__('deep.config.tracepoint_config', fromlist=['x']), 'threading', shims.ThreadingShim()),
+                       (__import__('deep.api.deep', fromlist=['x']), 'threading', shims.ThreadingShim())), rig.VirtualClock():
         if 'schedule' in desc:
             sched, st = S.run_one(make, desc['schedule'])
             ctx.traces += 1
